@@ -40,14 +40,14 @@ Expected(kind, area, w8, s3, wv, ds, ram) ==
   IF kind = "N" THEN 1
   ELSE IF ram THEN 2
   ELSE LET accesses == IF w8 = 1 /\ kind \in WordKinds THEN 2 ELSE 1
-           dramSpace == area = 2 /\ ds >= 1
+           (* the DRAS table row by row: which areas each of the eight encodings makes DRAM space *)
+           dramSpace == area \in << {}, {2}, {2, 3}, {2, 3}, {2, 3, 4}, {2, 3, 4, 5}, {2, 3, 4, 5}, {2, 3, 4, 5} >>[ds + 1]
            per == IF dramSpace THEN 4 + wv ELSE IF s3 = 1 THEN 3 + wv ELSE 2
        IN accesses * per
 CostCase(area, kind, w8, s3, wv, ds) ==
   /\ \A a \in Reps(area), k \in 0..3, n \in 1..5 :
        LET br == MkBr(k, area, w8, s3, wv, ds)
-       IN IF area \in {3, 4, 5} /\ ds >= 2 /\ kind # "N" THEN CycleCost(kind, n, a, br) = -1          \* not defined by the properties
-          ELSE CycleCost(kind, n, a, br) = n * Expected(kind, area, w8, s3, wv, ds, FALSE)
+       IN CycleCost(kind, n, a, br) = n * Expected(kind, area, w8, s3, wv, ds, FALSE)
   /\ area = 7 => \A a \in RamReps, k \in 0..3, n \in 1..5 :
        CycleCost(kind, n, a, MkBr(k, area, w8, s3, wv, ds)) = n * Expected(kind, area, w8, s3, wv, ds, TRUE)
 
